@@ -2,7 +2,7 @@ import ast
 import inspect
 import textwrap
 from functools import cached_property
-from typing import AbstractSet, Callable, Collection, Dict, Set
+from typing import AbstractSet, Callable, Collection, Dict, Set, Tuple
 
 Dependencies = AbstractSet[str]
 
@@ -37,7 +37,8 @@ def find_dependencies(func: Callable) -> Dependencies:
     return finder.dependencies
 
 
-cache: Dict[Callable, Dependencies] = {}
+# dependencies go through the methods of the class, which a subclass can override
+cache: Dict[Tuple[type, Callable], Dependencies] = {}
 
 
 def find_all_dependencies(
@@ -45,7 +46,7 @@ def find_all_dependencies(
 ) -> Dependencies:
     """Dependencies contains class variables (because they can be "fake" ones as in
     dataclasses)"""
-    if func not in cache:
+    if (cls, func) not in cache:
         dependencies = set(find_dependencies(func))
         for attr in list(dependencies):
             if not hasattr(cls, attr):
@@ -61,5 +62,5 @@ def find_all_dependencies(
                     continue
                 rec_deps = find_all_dependencies(cls, member, {*rec_guard, member})
                 dependencies.update(rec_deps)
-        cache[func] = dependencies
-    return cache[func]
+        cache[cls, func] = dependencies
+    return cache[cls, func]
